@@ -46,4 +46,30 @@ let () =
               of_keyres op; of_keyres oz; oracle;
               of_list (of_pair of_str of_bool) (M.c04_spec_keys cf c)]
     | _ -> failwith "c04-case: bad case");
+  (* (default_case files iplain izod); files = ((fn ...) ...), fn = (name is_command macro params).
+     One result per command, in file order then function order: (name dom classes model_plain model_zod obs_plain obs_zod oracle spec) *)
+  Registry.register "project" (fun s ->
+    match list s with
+    | [dcase; files; iplain; izod] ->
+        let cf = M.c04_cfg (str_ dcase) in
+        let fn_ s = match list s with
+          | [n; ic; macro; params] -> M.c04_fn (str_ n) (bool_ ic) (opt_ str_ macro) (list_ (pair_ str_ cty_) params)
+          | _ -> failwith "fn" in
+        let proj = list_ (list_ fn_) files in
+        let dom = M.c04_project_dom cf proj in
+        let b f = of_bool f in
+        List (List.concat_map (fun f ->
+          List.map (fun c ->
+            let name = M.c04_cmd_name c in
+            let mp = M.c04_model_in cf false f c and mz = M.c04_model_in cf true f c in
+            let op = observe name iplain and oz = observe name izod in
+            let oracle = match op, oz with
+              | M.KKeys p, M.KKeys z ->
+                  List [b (M.c04_keys_ok cf c p); b (M.c04_optional_ok cf c p); b (M.c04_keys_ok cf c z);
+                        b (M.c04_optional_ok cf c z); b (M.c04_zod_src_ok cf c z); b (M.c04_modes_ok p z)]
+              | _ -> List [] in
+            List [of_str name; b dom; of_list of_bool (M.c04_classes cf c); of_keyres mp; of_keyres mz;
+                  of_keyres op; of_keyres oz; oracle;
+                  of_list (of_pair of_str of_bool) (M.c04_spec_keys cf c)]) (M.c04_commands f)) proj)
+    | _ -> failwith "c04-project: bad case");
   Registry.register "camel" (fun s -> List [of_str (M.c04_tauri_camel (str_ s)); of_str (M.c04_tauri_snake (str_ s))])
